@@ -111,7 +111,8 @@ let split_failure (impl : string) : string list * string option =
   | _ -> (ts, None)
 
 let slots_of_string (s : string) : nat option list =
-  List.map (fun x -> if x = "-" then None else Some (nat_of_int (int_of_string x)))
+  (* `?` = a value that is not the result of the call of that index *)
+  List.map (fun x -> if x = "-" then None else if x = "?" then Some (nat_of_int 9999) else Some (nat_of_int (int_of_string x)))
     (List.filter (fun x -> x <> "") (String.split_on_char ',' s))
 
 let string_of_slots (l : nat option list) : string =
@@ -338,6 +339,12 @@ let pool_consts _ =
    state along enabled labels (the measure guarantees termination) and the workers that have not exited are
    counted: by C07_workers_exit / C07_reaches_final that is 0. *)
 let pool_leak line =
+  if List.mem "boom=1" (toks line) then
+    (* user code panics on a pooled thread: in the model that call "panics" (EWRun k true), takes the ordinary
+       protocol path (catch_unwind in the worker loop), the broadcast returns; divan then reports the panic and the
+       process ends the ordinary way *)
+    "panic-reported exit=101"
+  else
   let runs = List.concat_map (fun t ->
       if String.length t > 5 && String.sub t 0 5 = "runs=" then
         List.filter (fun x -> x <> "") (String.split_on_char ',' (String.sub t 5 (String.length t - 5)))
@@ -359,8 +366,13 @@ let pool_leak line =
   Printf.sprintf "survivors=%d runs=%d seen=%d" !survivors (List.length runs) !workers
 
 let pool_leak_sb line =
-  let _, impl = split_sb line in
+  let case, impl = split_sb line in
+  let boom = List.mem "boom=1" (toks case) in
   match toks impl with
+  | "hang" :: _ -> "false hang(deadlock): the run did not finish"
+  | "killed" :: _ -> "false process-killed " ^ impl
+  | "panic-reported" :: _ when boom -> "true"
+  | _ when boom -> "false panicking-call-did-not-end-as-a-reported-panic " ^ impl
   | t :: _ when t = "survivors=0" -> "true"
   | t :: _ when String.length t > 10 && String.sub t 0 10 = "survivors=" -> "false worker-not-exited-after-the-run " ^ t
   | _ -> "false " ^ impl
